@@ -30,6 +30,8 @@ for sid in sorted(os.listdir(os.path.join(V, "seeded"))):
         by |= set(c.get("caught_by", []))
     caught = "+".join(sorted({"proof obligation": "proof", "bounded native check": "bounded"}[b] for b in by)) or ("MISSED" if not ver.get("detected") else "?")
     first = "missed" if m.get("initially_missed") else ("bounded only" if m.get("initially_only_bounded") else "")
+    if m.get("outside_statement_domain") and not ver.get("detected"):
+        caught, first = "not claimed", "outside the statement's domain (see meta.json)"
     rows.append(f"| {sid} | {title.replace('|', '/')[:150]} | {caught} | {first} |")
 print("| id | change (from the author's notes) | caught by | first version of the check |")
 print("|---|---|---|---|")
